@@ -17,7 +17,8 @@ AXIOMS_ALLOWED = []
 MODEL_NEEDS_IMPL = True      # the driver also runs the extracted trace monitors on the implementation's trace
 LEVEL = "proof"
 TIMEOUT = 1500
-REQUIRED_THEOREMS = ["C09_exit_only_by_teardown_or_condition", "C09_no_step_before_run", "C09_epochs", "C09_reset_honoured", "C09_reboot_waits_for_run",
+REQUIRED_THEOREMS = ["C09_bounded_exit_run_condition_false_running", "C09_bounded_exit_not_running_refuted", "C09_query_answers",
+                     "C09_preboot_valuations_reachable", "C09_exit_only_by_teardown_or_condition", "C09_no_step_before_run", "C09_epochs", "C09_reset_honoured", "C09_reboot_waits_for_run",
                      "C09_teardown_one_step", "C09_exited_quiescent", "C09_bounded_exit",
                      "C09_bounded_exit_run_condition_false", "C09_step_generates_reachable",
                      "C09_schedule_words_reachable", "C09_every_word_ends_exited", "C09_monitors_hold",
@@ -28,7 +29,9 @@ RULE = ("schedule words over {T, F (thread move, run_condition true/false), Run,
         "queries dropped: is_running()/step_number() are observed after every token anyway); (2) every word Run.w with w up to a longer bound "
         "containing at most 2-3 commands and 1-2 false run_condition answers (= all placements of up to k commands at every schedule point of "
         "two epochs); (3) seeded random words of length <= 30 over the full alphabet (including disabled tokens); (4) free-running stress "
-        "(no scheduler, random pauses) on which only the trace monitors are evaluated. Each word ends with teardown + wait (2 s time-out). "
+        "(no scheduler, random pauses): each logged trace must be EXPLAINED by a schedule of the model (search over the extracted step function with the "
+        "logged order of commands, query answers and thread events as constraint; the schedule found is replayed through run_moves) and pass the monitors; "
+        "(5) every sequence of up to 2-3 commands issued BEFORE boot() followed by every short word. Each word ends with teardown + wait (2 s time-out). "
         "non-trivial = the word contains Reset, Reboot or Teardown; distinct by the word")
 TRUSTED_BASE = ["Coq 8.16.1 kernel (coqc); no axioms (Print Assumptions: closed under the global context)",
                 "extraction (ExtrOcamlBasic only), ocaml/drv_C09.ml, ocaml/caseio.ml",
@@ -52,7 +55,9 @@ LEVEL_TEXT = ("Proof: small-step model of FilteringAlgorithm (22 thread program 
               "numbers from 0, reset/reboot followed by at most one step before the next initialisation/exit, at most one initialisation-or-step after reboot "
               "until run, at most one after teardown, the thread ends only through teardown or a false run_condition, quiescence after its final store; "
               "bounded exit (<= 15 own moves after teardown, <= 10 once run_condition stays false, at most one of them a step, thread never disabled); "
-              "progress (a pending reset/reboot leads to a new initialisation, resp. to waiting for run, within 17 own moves). The executable step function is "
+              "also <= 13 from any point while run_ is up and no reboot follows, with the complementary refutation for run_ down; "
+              "progress (from every point of the loop a pending reset/reboot leads to a new initialisation, resp. to waiting for run, within 17 own moves); "
+              "answers of step_number()/is_running() constrained by the history; pre-boot flag valuations reachable. The executable step function is "
               "the one extracted and run against the library; the extracted trace monitors are also evaluated on the library's own traces.")
 LEVEL_NOTE = ("What the model cannot exhibit: pre-emption inside libstdc++ (inside mutex/condition_variable/thread operations) and inside the atomic "
               "accesses; real time - 'wait returns in bounded time' is proved as 'the thread reaches its end within a bounded number of its own moves and "
@@ -62,6 +67,9 @@ LEVEL_NOTE = ("What the model cannot exhibit: pre-emption inside libstdc++ (insi
               "return of the thread function counts as 'after the thread had ended'). An initialisation that the thread was already committed to (it had "
               "passed the wait) can still happen after reboot()/teardown(): the theorems bound it (at most one initialisation-or-step), they do not forbid it. "
               "Clause (b) of bounded exit needs the thread to be past the wait: a thread still blocked waiting for run ends only through teardown. "
+              "The scheduler parks the thread only at points 1-9, so within one loop condition all flag reads see the same state in every word: the windows between "
+              "the individual reads are reached by the free-running stress mode only, whose traces are matched against the model by schedule search (not compared "
+              "with a predicted trace). A time-out (2 s) is retried once on a fresh object with 10 s before it is reported; retries are counted in the evidence. "
               "The pre-fix teardown (plain store, no notify) is kept in coq/C09_Regress.v with the proof that it hangs (C09_teardown_hang_refuted).")
 
 # prefixes: P2 = a reset requested inside step 1, thread back at the loop top (second epoch about to start, counter = 2);
@@ -70,6 +78,9 @@ P2 = "Run T T T T T T T Reset T T T T".split()
 P3 = "Run T T T T T T F T T".split()
 ENUM = {"quick": [("e", 6, 6, 6, []), ("p", 12, 2, 1, ["Run"]), ("s", 9, 2, 1, P2), ("t", 8, 2, 1, P3)],
         "thorough": [("e", 8, 8, 8, []), ("p", 18, 2, 2, ["Run"]), ("q", 11, 3, 1, ["Run"]), ("s", 9, 3, 1, P2), ("t", 9, 3, 1, P3)]}
+# commands before boot(): every sequence of up to 2 (quick) / 3 (thorough) commands, each followed by every word of a short length
+PREBOOT = {"quick": (2, 5, 1), "thorough": (3, 6, 2)}   # (prefix length, word length, commands in the word)
+PRE_CMDS = ["Run", "Reset", "Reboot", "Teardown"]
 RANDOM = {"quick": 600, "thorough": 4000}
 STRESS = {"quick": 40, "thorough": 1500}
 ALPHABET = [("T", 50), ("F", 5), ("Run", 10), ("Reset", 8), ("Reboot", 6), ("Teardown", 2), ("IsRunning", 7), ("StepNumber", 7), ("Wait", 5)]
@@ -96,6 +107,21 @@ def generate(rng, tier):
             c = caseio.Case(rid, "word", rec.meta)
             c.word("w", rec.get("w") or [])
             cases.append(c)
+    import itertools
+    plen, wlen, wcmds = PREBOOT[tier]
+    nb = 0
+    for L in range(1, plen + 1):
+        for pre in itertools.product(PRE_CMDS, repeat=L):
+            out = subprocess.run([drv, "gen", "b%d_" % nb, str(wlen), str(wcmds), "1"] + list(pre), capture_output=True, text=True, timeout=600).stdout
+            nb += 1
+            for rid, rec in caseio.parse_records(out, "case").items():
+                w = rec.get("w") or []
+                meta = dict(rec.meta); meta["src"] = "preboot"
+                c = caseio.Case(rid, "word", meta)
+                c.word("pre", w[:L]); c.word("w", w[L:])
+                cases.append(c)
+    STATS["preboot"] = {"prefixes": nb, "max_prefix": plen, "maxlen": wlen, "words": sum(1 for c in cases if c.meta.get("src") == "preboot"),
+                        "states": 0, "transitions": 0}
     toks = [t for t, _ in ALPHABET]
     wts = [w for _, w in ALPHABET]
     for k in range(RANDOM[tier]):
@@ -105,6 +131,8 @@ def generate(rng, tier):
         if rng.random() < 0.7:
             w.insert(rng.randint(0, min(3, len(w))), "Run")
         c = caseio.Case("r%d" % k, "word", {"len": len(w), "src": "random"})
+        if rng.random() < 0.25:
+            c.word("pre", rng.choices(PRE_CMDS + ["IsRunning", "StepNumber", "Wait"], k=rng.randint(1, 3)))
         c.word("w", w)
         cases.append(c)
     for k in range(STRESS[tier]):
@@ -118,7 +146,7 @@ def generate(rng, tier):
 def nontrivial(c):
     if c.kind != "word":
         return ("stress", c.meta.get("seed"))
-    w = c.get("w") if c.has("w") else []
+    w = (c.get("pre") if c.has("pre") else []) + ["|boot|"] + (c.get("w") if c.has("w") else [])
     if any(t in ("Reset", "Reboot", "Teardown") for t in w):
         return " ".join(w)
     return None
@@ -128,6 +156,11 @@ FIELDS = ["obs", "end_loc", "trace", "exited", "final_running", "final_step"]
 
 
 def compare(c, impl, model):
+    if impl.get("retried") == 1:
+        COUNTS["retried"] += 1
+    if c.kind == "stress" and model is not None and model.has("explained"):
+        COUNTS["stress_total"] += 1
+        COUNTS["stress_explained"] += 1 if model.get("explained") == 1 else 0
     if impl.get("skipped") == 1 or c.kind != "word":
         return []
     return caseio.compare_fields(impl, model, FIELDS, atol=0, rtol=0)
@@ -154,15 +187,23 @@ def oracle(c, impl, model):
         return v
     loc = LOCNAME.get(_last_loc(impl), _last_loc(impl))
     if impl.get("stuck") == 1:
-        v.append(("C09:thread-not-woken:%s" % loc, "the wait predicate holds but the filtering thread did not leave cv_run_.wait within 2 s; word: %s"
+        v.append(("C09:thread-not-woken:%s" % loc, "the wait predicate holds but the filtering thread did not leave cv_run_.wait within 2 s (nor within 10 s in a second run of the word); word: %s"
                   % " ".join(c.get("w") if c.has("w") else [])))
     if impl.get("exited") != 1:
-        v.append(("C09:wait-did-not-return-after-teardown:%s" % loc, "teardown() was requested with the thread at '%s' and wait() did not return within 2 s" % loc))
+        v.append(("C09:wait-did-not-return-after-teardown:%s" % loc, "teardown() was requested with the thread at '%s' and wait() did not return within 2 s (nor within 10 s in a second run)" % loc))
     tr = impl.get("trace") or []
     if impl.get("exited") == 1 and impl.get("final_running") == 1 and "exit" in tr and c.kind == "word":
         after = tr[len(tr) - 1 - tr[::-1].index("exit"):]
         if "run" not in after:
             v.append(("C09:running-after-exit-without-run", "the thread has ended, run was not requested afterwards, and is_running() reports true; trace: %s" % " ".join(tr[:80])))
+    if c.kind == "stress" and model is not None and model.has("explained"):
+        if model.get("explained") != 1:
+            at = model.get("unexplained_at") or ["?", "?"]
+            v.append(("C09:stress-trace-not-a-model-trace:%s" % at[1].rstrip("0123456789"),
+                      "no schedule of the model produces the implementation's free-running trace; longest explained prefix %s events, next event %s; trace: %s"
+                      % (at[0], at[1], " ".join(tr[:120]))))
+        elif model.get("certified") != 1:
+            v.append(("C09:stress-schedule-not-certified", "the schedule found for the trace does not replay through run_moves to the same trace"))
     if model is not None and model.has("impl_good") and model.get("impl_good") != 1:
         bad = model.get("impl_bad") or ["?"]
         v.append(("C09:trace:%s" % bad[0], "the implementation's event trace violates the lifecycle monitor: %s; trace: %s"
@@ -176,7 +217,7 @@ def histogram(cases):
         s = c.meta.get("src", "?")
         h["source"][s] = h["source"].get(s, 0) + 1
         if c.kind == "word":
-            n = len(c.get("w")) if c.has("w") else 0
+            n = (len(c.get("w")) if c.has("w") else 0) + (len(c.get("pre")) if c.has("pre") else 0)
             k = "%d-%d" % (n // 5 * 5, n // 5 * 5 + 4)
             h["length"][k] = h["length"].get(k, 0) + 1
     return h
@@ -201,18 +242,20 @@ def method_shape(src, name):
         return None
     body = re.sub(r"//[^\n]*|/\*.*?\*/", "", m.group(1), flags=re.S)
     out = []
+    # equivalent spellings accepted: lock_guard / unique_lock on mtx_run_; notify_one / notify_all;
+    # x = v, x.store(v), x.store(v, std::memory_order_seq_cst), x.exchange(v) (result unused), optional (void) cast.
+    # Anything else (another memory order, another statement) is kept verbatim and therefore differs: fails closed.
+    store = r"(?:\(void\) ?)?(\w+_)(?: ?= ?|\.store\(|\.exchange\()(true|false)(?:, ?std::memory_order_seq_cst)?\)?"
     for st in [x.strip() for x in body.split(";")]:
         if not st:
             continue
         st = re.sub(r"\s+", " ", st)
-        if re.fullmatch(r"std::(lock_guard|unique_lock)<std::mutex> \w+\(mtx_run_\)", st):
+        if re.fullmatch(r"(const )?std::(lock_guard|unique_lock) ?<std::mutex> \w+ ?[\(\{]mtx_run_[\)\}]", st):
             out.append("lock")
         elif re.fullmatch(r"cv_run_\.notify_(one|all)\(\)", st):
             out.append("notify")
-        elif re.fullmatch(r"(\w+_) ?= ?(true|false)", st):
-            g = re.fullmatch(r"(\w+_) ?= ?(true|false)", st); out.append("%s=%s" % (g.group(1), g.group(2)))
-        elif re.fullmatch(r"(\w+_)\.store\((true|false)\)", st):
-            g = re.fullmatch(r"(\w+_)\.store\((true|false)\)", st); out.append("%s=%s" % (g.group(1), g.group(2)))
+        elif re.fullmatch(store, st) and (("=" in st and "(" not in st.replace("(void)", "")) or st.endswith(")")):
+            g = re.fullmatch(store, st); out.append("%s=%s" % (g.group(1), g.group(2)))
         else:
             out.append(st)
     return out
@@ -232,8 +275,12 @@ def transcription_problems():
     return probs
 
 
+COUNTS = {"retried": 0, "stress_explained": 0, "stress_total": 0}
+
+
 def main(ctx, a):
     """Standard flow (runner.main) plus the enumeration counts as evidence keys."""
+    COUNTS.update({"retried": 0, "stress_explained": 0, "stress_total": 0})
     if not a.skip_proofs:
         runner.prove(ctx)
     for pr in transcription_problems():
@@ -255,4 +302,6 @@ def main(ctx, a):
     ctx.extra["transitions"] = max([s["transitions"] for s in STATS.values()] or [0])
     ctx.extra["exhaustive_words"] = sum(s["words"] for s in STATS.values())
     ctx.extra["level_note"] = LEVEL_NOTE
+    ctx.extra["timeout_retries"] = COUNTS["retried"]
+    ctx.extra["stress_traces_explained_by_model_schedule"] = "%d/%d" % (COUNTS["stress_explained"], COUNTS["stress_total"])
     return runner.finish(ctx)
